@@ -27,7 +27,7 @@ ASSUMPTIONS = ["copy=False setters are an explicit opt-in to sharing and are out
 
 OPS = ["set_u", "set_logl", "upd_bz", "upd_all", "commit", "get_current", "get_current_u", "get_current_logl", "get_hist_u", "get_hist_logl",
        "get_hist_u_flat", "get_hist_logl_flat", "get_hist_logl_idx", "get_last_u", "get_last_logl", "results", "logw", "to_dict",
-       "update_from_dict", "from_dict", "save_load", "get_hist_beta", "save_excl"]
+       "update_from_dict", "from_dict", "save_load", "get_hist_beta", "save_excl", "set_u_roview"]
 ACCESSORS = {o for o in OPS if o.startswith("get_") or o in ("results", "logw", "to_dict")}
 SENT = 777.0
 
@@ -120,6 +120,14 @@ def run_seq(seq, res, cc, fs):
                 sm.set_current("u", v)
                 m.set("u", v)
                 v[...] = -5.0  # the caller reuses its buffer afterwards
+            elif op == "set_u_roview":
+                # a read-only VIEW of a caller-owned buffer: the caller may still write to the buffer afterwards
+                base_buf = _val("u", i)
+                v = base_buf.view()
+                v.flags.writeable = False
+                sm.set_current("u", v)
+                m.set("u", base_buf)
+                base_buf[...] = -7.0
             elif op == "set_logl":
                 v = _val("logl", i)
                 sm.set_current("logl", v)
